@@ -284,11 +284,15 @@ def run(out: Outcome) -> None:
     i = 0
     for cls in dets.CLASSES:
         for with_cb in (False, True):
-            for proto in (protos if thorough else [protos[(i + out.seed) % len(protos)]]):
+            # quick tier: every class meets BOTH families of pickle protocols in every run - the old-style ones (0, 1: no `__reduce_ex__(2)`, classes with
+            # `__slots__` need their own `__getstate__`) and the new-style ones (2 .. HIGHEST); which member of the family rotates with the seed
+            fam = [q for q in protos if (q < 2) != with_cb]
+            for proto in (protos if thorough else [fam[(i + out.seed) % len(fam)]]):
                 concept_case(out, rng, cls, with_cb, proto, thorough)
             i += 1
     for cls in DIST + STAT:
-        for proto in (protos if thorough else [protos[(i + out.seed) % len(protos)]]):
+        fam = [q for q in protos if (q < 2) == ((i + out.seed) % 2 == 0)]
+        for proto in (protos if thorough else [fam[((i + out.seed) // 2) % len(fam)]]):
             batch_case(out, rng, cls, proto)
         i += 1
     for proto in (protos if thorough else [protos[(i + out.seed) % len(protos)], pickle.HIGHEST_PROTOCOL]):
